@@ -53,7 +53,7 @@ QUICK = [
 THOROUGH = [
     ("t12-check", consts(12, send="{0, 1, 3}", recv="{1, 3}", maxsend=2, maxrecv=3), "check", None, 4),
     ("t13-check", consts(13, send="{0, 1, 3}", recv="{1, 3}", maxsend=2, maxrecv=3), "check", None, 4),
-    ("t13-check3", consts(13, scc="{TRUE}", scs="{TRUE}", send="{1, 2, 3}", recv="{1, 2}", maxsend=3, maxrecv=3),
+    ("t13-check3", consts(13, scc="{TRUE}", scs="{TRUE}", send="{1, 3}", recv="{1, 2}", maxsend=3, maxrecv=3),
      "check", None, 4),
     ("t12-checkbig", consts(12, scc="{TRUE}", big="{TRUE}", send="{0, 2}", recv="{1, 2}", maxsend=2, maxrecv=3,
                             maxcut=2), "check", None, 4),
